@@ -558,6 +558,11 @@ def check(case: dict[str, Any], rec: Any) -> None:
                                                                "now": str(r["drained_at"])})
     for e in r["restarts"]:
         rec.count("resample()-restarts")
+        if not e["error"].startswith("ResamplingError"):
+            # resample() documents ResamplingError (remove the faulty series, call again); any other exception ends
+            # the loop for a caller that follows that protocol, i.e. every series stops
+            rec.violation("resample()-ended-with-an-error-other-than-ResamplingError", {**w0, "error": e["error"], "at": str(e["at"])})
+            return
     rec.nontrivial(len(glob) >= 8 and (any(l >= 1 for l in lats) or any(s["add_at"] > 0 for s in c["series"])
                                       or c["phase"] != 0.0))
     rec.observed({"first_tick": str(glob[0]), "ticks": len(glob), "created": str(created), "restarts": len(r["restarts"]),
